@@ -17,7 +17,7 @@ def prepare(backends):
 
 
 def plan(env, tier, seed):
-    return [{"backend": b, "bin": e["bins"]["x_si"], "seed": seed, "nrand": 500 if tier == "quick" else 20000} for b, e in env.items()]
+    return [{"backend": b, "bin": e["bins"]["x_si"], "seed": seed, "nrand": 500 if tier == "quick" else 200000} for b, e in env.items()]
 
 
 def work(task):
